@@ -26,7 +26,11 @@ type C04Plan struct {
 	Fault     *Fault     `json:"fault,omitempty"`      // one transient read error during the diff
 	DupEdge   string     `json:"dup_edge,omitempty"`   // "", "first", "second", "both": the CSV of that side repeats the lines at its block edges
 	NoSum     bool       `json:"no_sum,omitempty"`     // the tables are handed to the differ as decoded from bytes (Table.Sum not set), as ReadTableFrom returns them
-	Sample    int        `json:"sample,omitempty"`     // >0: the first table is every Sample-th row of the (large) base, with the edits applied: one of its blocks spans many blocks of the other
+	Sample    int        `json:"sample,omitempty"`
+	// Workers > 1: both tables are ingested by that many block workers (-n) under the seeded scheduler, so
+	// later blocks may be stored before earlier ones; the diff must not depend on who finished first
+	Workers   int    `json:"workers,omitempty"`
+	SchedSeed uint64 `json:"sched_seed,omitempty"`     // >0: the first table is every Sample-th row of the (large) base, with the edits applied: one of its blocks spans many blocks of the other
 }
 
 func genRowEdits(r *Rand, cols []string, pk []string, nrows int, maxEdits int) []Edit {
@@ -93,7 +97,7 @@ func genRowEdits(r *Rand, cols []string, pk []string, nrows int, maxEdits int) [
 func init() {
 	Register(&Profile{
 		ID: "C04", Prop: "C04",
-		Rule: "pairs (t1, t2 = edit script over t1: cell edits, row deletes at front/back/block edges/nested ranges, row adds; identical tables; either side empty; keyless; composite keys; 0-4 blocks) ingested by the real pipeline into one or two stores; diff event multiset vs map-by-key model, offsets verified through BlockBuffer and raw decode, diff(t,t)=0, argument swap swaps added/removed; non-trivial = >=1 event of each of two kinds or >=2 blocks on a side; distinct by plan hash",
+		Rule: "pairs (t1, t2 = edit script over t1: cell edits, row deletes at front/back/block edges/nested ranges, row adds; identical tables; either side empty; keyless; composite keys; 0-4 blocks) ingested by the real pipeline (1 worker, or 2-14 block workers under the seeded scheduler) into one or two stores; diff event multiset vs map-by-key model, offsets verified through BlockBuffer and raw decode, diff(t,t)=0, argument swap swaps added/removed; non-trivial = >=1 event of each of two kinds or >=2 blocks on a side; distinct by plan hash",
 		Gen: func(seed uint64, tier string) any {
 			r := NewRand(seed)
 			p := C04Plan{TwoStores: r.Chance(0.3), Swap: r.Chance(0.3)}
@@ -124,6 +128,9 @@ func init() {
 				p.DupEdge = Pick(r, []string{"first", "second", "both"})
 			}
 			p.NoSum = r.Chance(0.2)
+			if r.Chance(0.4) {
+				p.Workers, p.SchedSeed = Pick(r, []int{4, 5, 6, 8, 16}), r.Uint64()
+			}
 			if r.Chance(0.015) {
 				// a small sample against the full table: one block of the sample spans dozens of blocks of the other
 				s := SynthSpec{N: r.Range(9000, 14000), NCols: r.Range(2, 3), Seed: r.Uint64()}
@@ -292,12 +299,30 @@ func execC04(t *testing.T, raw json.RawMessage, res *Result) {
 			res.probe("duplicate_lines_at_block_edges", 1)
 		}
 	}
-	sumA, err := ingestPlain(t, stA, cols, pk, inA)
+	if p.Workers < 0 || p.Workers > 64 {
+		res.Invalid("workers")
+		return
+	}
+	ingest := func(st *Store, rows [][]string, seed uint64) ([]byte, error) {
+		if p.Workers <= 1 {
+			return ingestPlain(t, st, cols, pk, rows)
+		}
+		run := RunIngest(t, st, CSVText(cols, rows, ','), pk, IngestCfg{Delim: ",", Workers: p.Workers, SchedSeed: seed})
+		if run.Out.PanicVal != nil {
+			return nil, fmt.Errorf("panic: %v", run.Out.PanicVal)
+		}
+		if run.Out.Deadlock {
+			return nil, fmt.Errorf("deadlock")
+		}
+		res.probe("ingested_by_several_workers", 1)
+		return run.Sum, run.Err
+	}
+	sumA, err := ingest(stA, inA, p.SchedSeed)
 	if err != nil {
 		res.Invalid("ingest A: %v", err)
 		return
 	}
-	sumB, err := ingestPlain(t, stB, cols, pk, inB)
+	sumB, err := ingest(stB, inB, p.SchedSeed+1)
 	if err != nil {
 		res.Invalid("ingest B: %v", err)
 		return
